@@ -142,6 +142,7 @@ class Runner:
         self.file_opts = file_opts or {}
         self.log = []            # executed steps with results
         self.wrote = {}          # session -> set of line texts it reported writing (C03)
+        self.neigh = {}          # (session, normalised text) -> (normalised text above, below) when the session wrote it
         self.commit_ok = []      # per commit step: did git create a commit?
         self.was_last = {}       # path -> uids that were, at some point, the last line of a file kept
                                  # without a final newline (their line ending changes when lines are
@@ -164,9 +165,12 @@ class Runner:
             r.write(path, content_of(st["lines"], o.get("final_newline", True), o.get("crlf", False)))
             if who != "human":
                 w = self.wrote.setdefault(who, set())
-                for l in st["lines"]:
+                nt = lambda t: "".join(t.split())
+                for k_, l in enumerate(st["lines"]):
                     if l[1] == who and (l[2] not in old or old[l[2]][0] != l[0]):
                         w.add(l[0])
+                        self.neigh[(who, nt(l[0]))] = (nt(st["lines"][k_ - 1][0]) if k_ > 0 else None,
+                                                       nt(st["lines"][k_ + 1][0]) if k_ + 1 < len(st["lines"]) else None)
                 res = r.ai_checkpoint(who, [path], tool=TOOL)
         elif op == "delete_file":
             self.ghost.pop(st["path"], None)
